@@ -12,7 +12,8 @@
    that answer, and every keyword handler / creator that is itself clean. *)
 From Coq Require Import List Ascii String ZArith NArith Bool.
 From YP Require Import Outcome PyStr PyVal Doc Generated PathParser PathPrinter Searches Eval SpecC15 SpecC09
-     EvalGood EvalHandlers EvalTotal EvalPure EvalC15.
+     EvalGood EvalHandlers EvalTotal EvalPure EvalC15
+     Keywords EvalKw SpecC15kw EvalKwClean EvalKwTotal EvalKwColl EvalKwC15.
 Import ListNotations.
 Open Scope string_scope.
 
@@ -54,6 +55,91 @@ End Statements.
 Print Assumptions C15_required_only_ype.
 Print Assumptions C15_exists_only_ype.
 Print Assumptions C15_optional_only_ype.
+
+(* ---- the evaluator JOINED with the keyword searches (Model/EvalKw.v): no
+   assumption about the keyword handler is left.  [ek_required] / [ek_optional] /
+   [ek_exists] are get_nodes(mustexist=True) / get_nodes(mustexist=False) /
+   exists() with Eval's parameter [kw_handler] instantiated by
+   Keywords.keyword_search.  Fragments and guard: Spec/SpecC15kw.v. ---- *)
+Section StatementsKw.
+Variable lit : string -> outcome litres.
+Variable re_search : string -> string -> outcome reres.
+Variable nstr : node -> string.
+Variable vstr : list rval -> string.
+Hypothesis lit_total : forall s, exists r, lit s = Ok r /\ (forall c, r <> LCrash c).
+Hypothesis re_total : forall p s, exists r, re_search p s = Ok r.
+
+(* Every keyword handler -- has_child (incl. &anchor), name, max, min, parent,
+   unique, distinct, inverted or not -- on ANY data (document nodes, lists built
+   by the evaluator, null, unhashable members), any context and any parameter
+   text SearchKeywordTerms.parameters can split: the stream ends normally or
+   with a YAMLPathException and yields NodeCoords. *)
+Theorem C15_kw_handler_clean :
+  forall (inv : bool) (kw : keyword) (params : string) (v : rval) (c : ctx),
+    kw_params_ok params = true ->
+    clean_stop (snd (ek_kw_handler lit re_search nstr vstr inv kw params v c))
+    /\ Forall (fun x => is_coords x = true) (fst (ek_kw_handler lit re_search nstr vstr inv kw params v c)).
+Proof. exact (kw_handler_clean lit re_search nstr vstr lit_total). Qed.
+
+(* C15 for the collector-free fragment INCLUDING keyword segments at any
+   position (in_fragment_kw = in_fragment + the parameter texts split) *)
+Theorem C15_required_only_ype_kw :
+  forall (p : ppath) (d : node),
+    in_fragment_kw p = true ->
+    clean_stop (snd (ek_required lit re_search nstr vstr p d)).
+Proof. exact (required_only_ype_kw lit re_search nstr vstr lit_total re_total). Qed.
+
+Theorem C15_exists_only_ype_kw :
+  forall (p : ppath) (d : node),
+    in_fragment_kw p = true ->
+    clean_stop (snd (ek_exists lit re_search nstr vstr p d)).
+Proof. exact (exists_only_ype_kw lit re_search nstr vstr lit_total re_total). Qed.
+
+Theorem C15_optional_only_ype_kw :
+  forall (p : ppath) (d : node),
+    in_fragment_kw p = true ->
+    clean_or_mut (snd (ek_optional lit re_search nstr vstr p d)).
+Proof. exact (optional_only_ype_kw lit re_search nstr vstr lit_total re_total). Qed.
+
+(* Collectors "limited to operands selecting scalars" (the property's own
+   restriction) as the computable guard [kc_fragment p d]: the path starts
+   with a collector expression (operand) {+|-|& (operand)}* followed by
+   collector-free segments (keyword segments included), every operand is again
+   such a path, and every operand, evaluated on the document the way
+   _get_nodes_by_collector evaluates it, yields only NodeCoords that unwrap to
+   scalars.  Under the guard: no crash, no fuel exhaustion, and -- for
+   subtraction too -- no `del` on the document. *)
+Theorem C15_required_only_ype_partial :
+  forall (p : ppath) (d : node),
+    kc_fragment lit re_search nstr vstr p d = true ->
+    clean_stop (snd (ek_required lit re_search nstr vstr p d)).
+Proof. exact (required_kc lit re_search nstr vstr lit_total re_total). Qed.
+
+Theorem C15_exists_only_ype_partial :
+  forall (p : ppath) (d : node),
+    kc_fragment lit re_search nstr vstr p d = true ->
+    clean_stop (snd (ek_exists lit re_search nstr vstr p d)).
+Proof. exact (exists_kc lit re_search nstr vstr lit_total re_total). Qed.
+
+Theorem C15_optional_only_ype_partial :
+  forall (p : ppath) (d : node),
+    kc_fragment lit re_search nstr vstr p d = true ->
+    clean_or_mut (snd (ek_optional lit re_search nstr vstr p d)).
+Proof. exact (optional_kc lit re_search nstr vstr lit_total re_total). Qed.
+
+(* the keyword fragment is the collector-free instance of the guard *)
+Theorem C15_kw_fragment_in_guard :
+  forall (p : ppath) (d : node), in_fragment_kw p = true -> kc_fragment lit re_search nstr vstr p d = true.
+Proof. exact (frag_kw_kc lit re_search nstr vstr). Qed.
+
+End StatementsKw.
+Print Assumptions C15_kw_handler_clean.
+Print Assumptions C15_required_only_ype_kw.
+Print Assumptions C15_exists_only_ype_kw.
+Print Assumptions C15_optional_only_ype_kw.
+Print Assumptions C15_required_only_ype_partial.
+Print Assumptions C15_exists_only_ype_partial.
+Print Assumptions C15_optional_only_ype_partial.
 
 (* ---- concrete oracles for the witnesses and the non-vacuity examples ---- *)
 Definition lit0 (s : string) : outcome litres :=
@@ -117,3 +203,89 @@ Proof.
   - intros s. unfold lit0. destruct (py_int s); eexists; split; try reflexivity; intros c H; discriminate.
   - intros; eexists; reflexivity.
 Qed.
+
+(* ---- the joined evaluator: non-vacuity and the witnesses for the guard ---- *)
+Definition run_req_kw (text : string) (d : node) : outcome (list N * stop) :=
+  do p <- prepare (S (S (String.length text))) text;
+  let g := ek_required lit0 re0 nstr0 vstr0 p d in
+  Ok (map (fun x => match x with RCoords (RNode n) _ _ _ _ => node_oid n | _ => 999%N end) (fst g), snd g).
+
+(* {z: [3, 1, 3], w: null} *)
+Definition doc_z : node :=
+  NMap (inf 0) [(leaf 1 (PStr "z"), NSeq (inf 2) [leaf 3 (PInt 3); leaf 4 (PInt 1); leaf 5 (PInt 3)]);
+                (leaf 6 (PStr "w"), leaf 7 PNone)].
+(* [{k: 1}, null, {k: 0}]: the shape of the seeded defect (a null element in an Array-of-Hashes) *)
+Definition doc_aoh_null : node :=
+  NSeq (inf 0) [NMap (inf 1) [(leaf 2 (PStr "k"), leaf 3 (PInt 1))]; leaf 4 PNone;
+                NMap (inf 5) [(leaf 2 (PStr "k"), leaf 6 (PInt 0))]].
+(* [1, [2], 1]: an unhashable member *)
+Definition doc_unhashable : node :=
+  NSeq (inf 0) [leaf 1 (PInt 1); NSeq (inf 2) [leaf 3 (PInt 2)]; leaf 1 (PInt 1)].
+
+Example C15_kw_fragment_max :
+  match prepare 20 "z[max()]" with Ok p => in_fragment_kw p | _ => false end = true.
+Proof. vm_compute. reflexivity. Qed.
+
+Example C15_kw_fragment_parent :
+  match prepare 40 "/**[has_child(a)][parent(2)].b" with Ok p => in_fragment_kw p | _ => false end = true.
+Proof. vm_compute. reflexivity. Qed.
+
+Example C15_kw_max_example : run_req_kw "z[max()]" doc_z = Ok ([3%N; 5%N], Done).
+Proof. vm_compute. reflexivity. Qed.
+
+Example C15_kw_parent_example : run_req_kw "[1].a[parent(2)]" doc_aoh = Ok ([0%N], Done).
+Proof. vm_compute. reflexivity. Qed.
+
+Example C15_kw_parent_above_root_example : run_req_kw "[1].a[parent(3)]" doc_aoh = Ok ([], Err (YPE Generic)).
+Proof. vm_compute. reflexivity. Qed.
+
+Example C15_kw_min_over_null_element : run_req_kw "[min(k)]" doc_aoh_null = Ok ([5%N], Done).
+Proof. vm_compute. reflexivity. Qed.
+
+Example C15_kw_unhashable_member : run_req_kw "[unique()]" doc_unhashable = Ok ([], Err (YPE Generic)).
+Proof. vm_compute. reflexivity. Qed.
+
+Example C15_kw_wildcard_parent : run_req_kw "z.*[parent()]" doc_z = Ok ([2%N; 2%N; 2%N], Done).
+Proof. vm_compute. reflexivity. Qed.
+
+Example C15_kw_params_hyp : kw_params_ok "a, 'b c'" = true /\ kw_params_ok "'a" = false.
+Proof. vm_compute. split; reflexivity. Qed.
+
+(* collectors with scalar operands satisfy the guard, and the query answers *)
+Example C15_guard_example :
+  match prepare 20 "(a)+(b)-(a)[max()]" with
+  | Ok p => kc_fragment lit0 re0 nstr0 vstr0 p doc_ab && negb (in_fragment_kw p)
+  | _ => false
+  end = true.
+Proof. vm_compute. reflexivity. Qed.
+
+Example C15_guard_chain_example :
+  match prepare 40 "(z[0])+(w)&(**)-(z.*)[unique()]" with
+  | Ok p => kc_fragment lit0 re0 nstr0 vstr0 p doc_z
+  | _ => false
+  end = true.
+Proof. vm_compute. reflexivity. Qed.
+
+(* a nested collector selects the LIST its inner collector built, not scalars: outside the guard *)
+Example C15_guard_rejects_nested :
+  match prepare 40 "((z[0])+(w))&(**)" with Ok p => kc_fragment lit0 re0 nstr0 vstr0 p doc_z | _ => true end = false.
+Proof. vm_compute. reflexivity. Qed.
+
+(* ... and the guard is needed: an operand that selects a hash makes the
+   subtraction evaluate `'x' in None` (TypeError); the guard rejects it, as it
+   rejects the collector-then-text path of finding F25 *)
+Theorem C15_collector_nonscalar_refuted :
+  exists text d,
+    match prepare 20 text with
+    | Ok p => kc_fragment lit0 re0 nstr0 vstr0 p d = false /\
+              snd (ek_required lit0 re0 nstr0 vstr0 p d) = Err (PyCrash TypeError)
+    | _ => False
+    end.
+Proof.
+  exists "(*)-([0])", (NSeq (inf 0) [leaf 1 PNone; NMap (inf 2) [(leaf 3 (PStr "a"), leaf 4 (PInt 1))]]).
+  vm_compute. split; reflexivity.
+Qed.
+
+Example C15_guard_rejects_f25 :
+  match prepare 10 "(a)b" with Ok p => kc_fragment lit0 re0 nstr0 vstr0 p doc_ab | _ => true end = false.
+Proof. vm_compute. reflexivity. Qed.
